@@ -373,16 +373,17 @@ def soc_members(tier='thorough'):
 
     @reg
     def soc_ball_supports_mean(a):
-        """As above with a box on the overall mean (thorough tier: level-1 linearisation does not decide the piecewise
-        objective of this member; it is a stretch obligation)."""
+        """As above with a box on the overall mean: 1400-1600 linearised rows, decided by the lazy sub-system loop of
+        tv.rlt_refute (exact simplex on the full system does not finish in minutes)."""
         p = a.scen(2)
         x = a.dvar(2)
         z = a.rvar(2)
         F = a.ambiguity()
         a.supp(F, [0], a.le(a.norm(z, 2), 1.5))
-        a.supp(F, [1], a.le(a.norm(z - A([1.0, 0.5]), 2), 1.0))
+        a.supp(F, [1], a.le(a.norm(z - A([1.0, 0.5]), 2), 1.0), a.ge(z[0], 0.25))
         a.expt(F, None, a.le(a.Ez(z), 0.75), a.ge(a.Ez(z), -0.25))
-        a.minsup(a.E(a.maxof(a.sum(x * z), 1.0 - x[0])), F)
+        a.prob(F, a.ge(p, 0.25))
+        a.minsup(a.E(a.maxof(a.sum(x * z), 1.0 - x[0], 0.5 * x[1] - z[0])), F)
         a.st(a.le(a.E(x[0] * z[1] + x[1]), 1.5))
         a.st(a.ge(x, -2.0))
         a.st(a.le(x, 2.0))
@@ -438,8 +439,6 @@ def soc_members(tier='thorough'):
         a.st(a.ge(y, 0.0))
         a.st(a.ge(x, 0.0))
         a.st(a.le(x, 5.0))
-    if tier == 'quick':
-        M.pop('soc_ball_supports_mean')
     return M
 
 
